@@ -30,6 +30,7 @@ func C04(r *core.Run) {
 	rule048(r)
 	rulePagingElements(r, "R04.9", "ListBucketResultBase", "ListBucketResult", "ListBucketResultV2")
 	rule035(r)
+	rule038(r)
 }
 
 func rule041(r *core.Run) {
